@@ -12,11 +12,11 @@ import (
 // Verification hooks are compiled out unless the "verif" build tag is set; see
 // verif_on.go.
 
-func verifPoint(name string)                           {}
-func verifEvent(name string, n int)                    {}
-func verifResetTimer(t *time.Timer, d time.Duration)   {}
-func verifResetTicker(t *time.Ticker, d time.Duration) {}
-func verifIdleSleep(d time.Duration) bool              { return false }
+func verifPoint(name string)                                 {}
+func verifEvent(name string, n int)                          {}
+func verifResetTimer(t *time.Timer, d time.Duration)         {}
+func verifResetTicker(t *time.Ticker, d time.Duration)       {}
+func verifIdleSleep(d time.Duration) bool                    { return false }
 func verifProcessed(t *table, offset wal.Offset, source int) {}
-func verifSent(rs *rowStore)                                   {}
-func verifApplied(rs *rowStore)                                {}
+func verifSent(rs *rowStore)                                 {}
+func verifApplied(rs *rowStore)                              {}
